@@ -41,14 +41,17 @@ struct Dataset {
     split_point: i64,
 }
 
-fn gen_dataset(rng: &mut Rng, first_id: i64) -> Dataset {
+fn gen_dataset(rng: &mut Rng, first_id: i64, big: bool) -> Dataset {
     let sp = FIVE_MIN * (10 + rng.range(0, 5));
     let (min_time, max_time) = (0, 2 * sp + rng.range(0, FIVE_MIN - 1)); // mid rounds down to sp
     let nchunks = 2 + rng.usize(4);
     let mut id = first_id;
+    let big_chunk = rng.usize(nchunks);
     let chunks = (0..nchunks)
-        .map(|_| {
-            let k = 1 + rng.usize(5);
+        .map(|ci| {
+            // a "big" dataset has one chunk longer than the back-fill reader's batch size (8192),
+            // so that one source chunk yields several copies per side
+            let k = if big && ci == big_chunk { 8193 + rng.usize(300) } else { 1 + rng.usize(5) };
             (0..k)
                 .map(|_| {
                     id += 1;
@@ -295,7 +298,11 @@ pub fn run(ctx: &Ctx) -> Outcome {
     let datasets: u64 = if ctx.thorough { 14 * 2 } else { 12 };
     for di in ctx.my_cases(datasets) {
         let mut rng = ctx.rng("C14", di);
-        let d = gen_dataset(&mut rng, di as i64 * 10_000);
+        let big = di % 6 >= 4;
+        let d = gen_dataset(&mut rng, di as i64 * 100_000, big);
+        if big {
+            out.count("datasets_with_a_chunk_over_8192_rows", 1);
+        }
         let local_backend = di % 2 == 1;
         // baseline
         let base = run_split(local_backend, &d, None, None);
